@@ -99,15 +99,15 @@ package stream
 //@   ensures result1 == End && result0 == zero(result0)
 
 //@ func errorStream.Next
-//@   props C07 C08
+//@   props C07 C08 C09
 //@   ensures result1 == s.err && result0 == zero(result0)
 
 //@ func FromIterator
-//@   props C07
+//@   props C07 C09
 //@   ensures fresh(result) && result.(*iteratorStream[T]).iter == iter
 
 //@ func iteratorStream.Next
-//@   props C07 C08
+//@   props C07 C08 C09
 //@   requires itInv(s.iter)
 //@   modifies s.iter.pos, s.iter.pulls
 //@   ensures itInv(s.iter)
@@ -117,11 +117,11 @@ package stream
 // ---- combinators ----
 
 //@ func Map
-//@   props C07
+//@   props C07 C09
 //@   ensures fresh(result) && result.(*mapStream[T, U]).inner == s && result.(*mapStream[T, U]).f == f
 
 //@ func mapStream.Next
-//@   props C07 C08
+//@   props C07 C08 C09
 //@   requires stInv(s.inner) && s.f != nil
 //@   modifies s.inner.pos, s.inner.pulls, s.inner.lasterr
 //@   ensures stInv(s.inner) && s.inner.pulls == old(s.inner.pulls) + 1
@@ -131,11 +131,11 @@ package stream
 //@   ensures result1 == End ==> old(s.inner.pos) >= s.inner.n || s.f(ctx, s.inner.seq[old(s.inner.pos)]).1 == End
 
 //@ func Filter
-//@   props C07
+//@   props C07 C09
 //@   ensures fresh(result) && result.(*filterStream[T]).inner == s && result.(*filterStream[T]).keep == keep
 
 //@ func filterStream.Next
-//@   props C07 C08
+//@   props C07 C08 C09
 //@   requires stInv(s.inner) && s.keep != nil
 //@   modifies s.inner.pos, s.inner.pulls, s.inner.lasterr
 //@   loop 0: invariant stInv(s.inner) && old(s.inner.pos) <= s.inner.pos && s.inner.pulls == old(s.inner.pulls) + s.inner.pos - old(s.inner.pos)
@@ -151,11 +151,11 @@ package stream
 //@   ensures result1 == End ==> s.inner.pos >= s.inner.n || (old(s.inner.pos) < s.inner.pos && s.keep(ctx, s.inner.seq[s.inner.pos-1]).1 == End)
 
 //@ func First
-//@   props C07
+//@   props C07 C09
 //@   ensures fresh(result) && result.(*firstStream[T]).inner == s && result.(*firstStream[T]).x == n
 
 //@ func firstStream.Next
-//@   props C07 C08
+//@   props C07 C08 C09
 //@   requires stInv(s.inner)
 //@   modifies s.x, s.inner.pos, s.inner.pulls, s.inner.lasterr
 //@   ensures stInv(s.inner)
@@ -165,7 +165,7 @@ package stream
 //@   ensures C08: old(s.x) > 0 && result1 != nil ==> srcFailed(s.inner, result1) && s.x == old(s.x) && result0 == zero(result0)
 
 //@ func While
-//@   props C07
+//@   props C07 C09
 //@   ensures fresh(result) && result.(*whileStream[T]).inner == s && result.(*whileStream[T]).f == f && !result.(*whileStream[T]).done && !result.(*whileStream[T]).has
 
 // the buffered item (when has) is the one just before the source position
@@ -174,7 +174,7 @@ package stream
 //@ pure whPos(s) = s.inner.pos - (s.has ? 1 : 0)
 
 //@ func whileStream.Next
-//@   props C07 C08
+//@   props C07 C08 C09
 //@   requires whRep(s)
 //@   modifies s.item, s.has, s.done, s.inner.pos, s.inner.pulls, s.inner.lasterr
 //@   ensures whRep(s)
@@ -189,7 +189,7 @@ package stream
 //@       || (s.has && s.done && result1 == End && s.f(ctx, s.item).1 == nil && !s.f(ctx, s.item).0)
 
 //@ func Chunk
-//@   props C07
+//@   props C07 C09
 //@   ensures fresh(result) && result.(*chunkStream[T]).inner == s && result.(*chunkStream[T]).chunkSize == chunkSize && result.(*chunkStream[T]).chunk == nil
 
 // the pending chunk is the suffix of what the source has handed out
@@ -198,7 +198,7 @@ package stream
 //@ pure ckPos(s) = s.inner.pos - len(s.chunk)
 
 //@ func chunkStream.Next
-//@   props C07 C08
+//@   props C07 C08 C09
 //@   requires ckRep(s)
 //@   modifies s.chunk, elems(s.chunk), s.inner.pos, s.inner.pulls, s.inner.lasterr
 //@   loop 0: invariant (s.chunk == nil || arr(s.chunk) == old(arr(s.chunk)) || fresh(s.chunk))
@@ -211,11 +211,11 @@ package stream
 //@   ensures C08: result1 != nil && result1 != End ==> result1 == s.inner.lasterr && ckPos(s) == old(ckPos(s))
 
 //@ func CompactFunc
-//@   props C07
+//@   props C07 C09
 //@   ensures fresh(result) && result.(*compactStream[T]).inner == s && result.(*compactStream[T]).eq == eq && result.(*compactStream[T]).first
 
 //@ func compactStream.Next
-//@   props C07 C08
+//@   props C07 C08 C09
 //@   requires stInv(s.inner) && s.eq != nil
 //@   modifies s.prev, s.first, s.inner.pos, s.inner.pulls, s.inner.lasterr
 //@   loop 0: invariant stInv(s.inner) && old(s.inner.pos) <= s.inner.pos && s.inner.pulls == old(s.inner.pulls) + s.inner.pos - old(s.inner.pos)
@@ -299,7 +299,7 @@ package stream
 //@   && (s.has ==> s.curr == s.inner.seq[s.inner.pos-1])
 
 //@ func WithPeek
-//@   props C07
+//@   props C07 C09
 //@   requires stInv(s)
 //@   ghost result.seq := s.seq
 //@   ghost result.n := s.n
@@ -308,7 +308,7 @@ package stream
 //@   ensures fresh(result) && result.(*peekable[T]).inner == s && pkRep(result.(*peekable[T]), result) && result.closes == 0
 
 //@ func peekable.Next
-//@   props C07 C08
+//@   props C07 C08 C09
 //@   requires pkRep(s, s.(Peekable[T]))
 //@   modifies s.curr, s.has, s.inner.pos, s.inner.pulls, s.inner.lasterr, s.(Peekable[T]).pos
 //@   ghost s.(Peekable[T]).pos := s.inner.pos - (s.has ? 1 : 0)
@@ -319,7 +319,7 @@ package stream
 //@   ensures C08: result1 != nil ==> srcFailed(s.inner, result1) && s.has == old(s.has) && s.curr == old(s.curr)
 
 //@ func peekable.Peek
-//@   props C07 C08
+//@   props C07 C08 C09
 //@   requires pkRep(s, s.(Peekable[T]))
 //@   modifies s.curr, s.has, s.inner.pos, s.inner.pulls, s.inner.lasterr
 //@   ensures pkRep(s, s.(Peekable[T])) && s.(Peekable[T]).pos == old(s.(Peekable[T]).pos)
@@ -348,11 +348,11 @@ package stream
 // ---- FlattenSlices ----
 
 //@ func FlattenSlices
-//@   props C07
+//@   props C07 C09
 //@   ensures fresh(result) && result.(*flattenSlicesStream[T]).inner == s && result.(*flattenSlicesStream[T]).buffer == nil
 
 //@ func flattenSlicesStream.Next
-//@   props C07 C08
+//@   props C07 C08 C09
 //@   requires stInv(s.inner)
 //@   modifies s.buffer, elems(s.buffer), s.inner.pos, s.inner.pulls, s.inner.lasterr, all(elems(s.buffer))
 //@   loop 0: invariant stInv(s.inner) && old(s.inner.pos) <= s.inner.pos
@@ -377,7 +377,7 @@ package stream
 //@   && (forall j int {s.inner.seq[j]} :: 0 <= j && j < s.inner.pos - (s.curr != nil ? 1 : 0) ==> s.inner.seq[j].closes == 1 && s.inner.seq[j].pos >= s.inner.seq[j].n)
 
 //@ func Flatten
-//@   props C07
+//@   props C07 C09
 //@   ensures fresh(result) && result.(*flattenStream[T]).inner == s && result.(*flattenStream[T]).curr == nil
 
 //@ func flattenStream.Next
@@ -408,7 +408,7 @@ package stream
 //@   && (forall k int {row(s.remaining)[k]} :: old(jlo(s)) <= k && k < jlo(s) ==> row(s.remaining)[k].closes == 1 && row(s.remaining)[k].pos >= row(s.remaining)[k].n)
 
 //@ func Join
-//@   props C07
+//@   props C07 C09
 //@   ensures fresh(result) && result.(*joinStream[T]).remaining == streams
 
 //@ func joinStream.Next
@@ -428,3 +428,51 @@ package stream
 //@   modifies all(s.remaining[0].closes)
 //@   loop 0: invariant forall k int {row(s.remaining)[k]} :: jlo(s) <= k && k < jhi(s) ==> row(s.remaining)[k].closes == (k < jlo(s) + idx0 ? 1 : 0)
 //@   ensures forall k int {row(s.remaining)[k]} :: jlo(s) <= k && k < jhi(s) ==> row(s.remaining)[k].closes == 1
+
+// ---- Runs (C07: runs are maximal, the skipped items belong to the previous run; C08: an error of the
+// source comes out unchanged and costs nothing - the run being drained stays current; C09: Close forwards once) ----
+
+//@ func Runs
+//@   props C07 C09
+//@   requires stInv(s)
+//@   ensures fresh(result) && result.(*runsStream[T]).same == same && result.(*runsStream[T]).curr == nil
+//@   ensures pkInv(result.(*runsStream[T]).inner) && result.(*runsStream[T]).inner.seq == s.seq && result.(*runsStream[T]).inner.n == s.n && result.(*runsStream[T]).inner.pos == s.pos
+
+//@ func runsInnerStream.Next
+//@   props C07 C08 C09
+//@   requires s.parent != nil ==> pkInv(s.parent.inner) && s.parent.same != nil
+//@   modifies s.parent.inner.pos, s.parent.inner.lasterr
+//@   ensures s.parent != nil ==> pkInv(s.parent.inner)
+//@   ensures s.parent == nil ==> result1 == End && s.parent.inner.lasterr == old(s.parent.inner.lasterr)
+//@   ensures result1 == nil ==> s.parent != nil && old(s.parent.inner.pos) < s.parent.inner.n && result0 == s.parent.inner.seq[old(s.parent.inner.pos)] && s.parent.same(s.prev, result0) && s.parent.inner.pos == old(s.parent.inner.pos) + 1
+//@   ensures result1 == End && s.parent != nil ==> old(s.parent.inner.pos) >= s.parent.inner.n || !s.parent.same(s.prev, s.parent.inner.seq[old(s.parent.inner.pos)])
+//@   ensures result1 != nil ==> result0 == zero(result0) && s.parent.inner.pos == old(s.parent.inner.pos)
+//@   ensures result1 != nil && result1 != End ==> s.parent != nil && result1 == s.parent.inner.lasterr
+
+//@ func runsInnerStream.Close
+//@   props C07 C09
+//@   modifies s.parent
+//@   ensures s.parent == nil
+
+//@ func runsStream.Close
+//@   props C09
+//@   requires s.inner != nil && s.inner.closes == 0
+//@   modifies s.inner.closes
+//@   ensures s.inner.closes == 1
+
+//@ func runsStream.Next
+//@   props C07 C08 C09
+//@   requires pkInv(s.inner) && s.same != nil && (s.curr != nil ==> s.curr.parent == nil || s.curr.parent == s)
+//@   modifies s.curr, s.inner.pos, s.inner.lasterr, s.curr.parent
+//@   loop 0: invariant pkInv(s.inner) && old(s.inner.pos) <= s.inner.pos && s.curr == old(s.curr) && s.curr != nil && s.curr.parent == old(s.curr.parent) && s.inner == old(s.inner) && s.same == old(s.same)
+//@   loop 0: invariant old(s.curr.parent) == nil ==> s.inner.pos == old(s.inner.pos)
+//@   loop 0: invariant forall t int {s.inner.seq[t]} :: old(s.inner.pos) <= t && t < s.inner.pos ==> s.same(s.curr.prev, s.inner.seq[t])
+//@   ensures pkInv(s.inner) && old(s.inner.pos) <= s.inner.pos
+//@   ensures forall t int {s.inner.seq[t]} :: old(s.inner.pos) <= t && t < s.inner.pos ==> old(s.curr) != nil && s.same(old(s.curr).prev, s.inner.seq[t])
+//@   ensures old(s.curr) == nil || old(s.curr.parent) == nil ==> s.inner.pos == old(s.inner.pos)
+//@   ensures result1 == nil ==> s.inner.pos < s.inner.n && result0 != nil && fresh(result0) && s.curr == result0.(*runsInnerStream[T]) && s.curr.parent == s && s.curr.prev == s.inner.seq[s.inner.pos]
+//@   ensures result1 == nil && old(s.curr) != nil ==> old(s.curr).parent == nil
+//@   ensures result1 == nil && old(s.curr) != nil && old(s.curr.parent) != nil ==> !s.same(old(s.curr).prev, s.inner.seq[s.inner.pos])
+//@   ensures result1 == End ==> s.inner.pos >= s.inner.n && s.curr == nil
+//@   ensures result1 != nil ==> result0 == nil
+//@   ensures result1 != nil && result1 != End ==> result1 == s.inner.lasterr && (s.curr == nil || (s.curr == old(s.curr) && s.curr.parent == old(s.curr.parent)))
